@@ -1,10 +1,12 @@
 """C11 — the action mask agrees with what the simulator would refuse."""
 from __future__ import annotations
 
+import json
 from typing import Any, Dict, List
 
 from harness.extract import action_mask as x_mask
 from harness.extract import request_core as x_core
+from harness.extract import request_validators as x_valid
 from harness.lib import scen
 from harness.lib.core import Ctx, lean_lock
 from harness.props import c05
@@ -14,18 +16,33 @@ from harness.rigs import request_siblings as sibs
 MANIFEST = {
     "text": "Lean 4 proof, for every request tree, validator valuation and request, that the model of RequestManager.check_valid is true "
             "exactly when the model of __call__ reaches a handler (C11_mask_iff_reaches), hence a masked-out action is answered "
-            "unreachable/failure and an allowed one is never refused; and that the mask equals 'target exists and every permission rule on "
-            "the path holds'. The pre-repair leaf-only traversal is refuted by a decided counterexample (F-19, fixed). Tie: shape of "
-            "check_valid regenerated from core.py (obligation C11_gen_check_valid_shape); rig R-req compares the real check_valid with the "
-            "model on every route, mutation and action request of live trees; the environment-level rig compares, for EVERY action-map entry "
-            "at EVERY step of random episodes (including nodes shutting down/booting, services restarting), the real mask bit with whether "
-            "the real __call__ reaches a (stubbed) handler.",
+            "unreachable/failure and an allowed one is never refused; that the mask equals 'target exists and every permission rule on "
+            "the path holds'; that action_mask lays the verdicts out by action number for every listing order of the action map "
+            "(C11_mask_by_action_number, C11_masked_number_iff_reaches) and that a mask entry depends on nothing but its own action "
+            "(C11_mask_entry_depends_only_on_its_action). Sharing guard verdicts between the entries of one mask (a per-edge memo) is "
+            "modelled and proved equal to the mask for every tree and map IF every rule ignores its options "
+            "(C11_memo_sound_of_option_free), refuted for name-reading rules by a decided counterexample (C11_memo_counterexample), and "
+            "the regenerated translation of every validator __call__ is classified: node/NIC/service/application/group rules are "
+            "option-free, the five file-system rules give different verdicts to siblings (C11_gen_option_free_rules, "
+            "C11_gen_option_reading_rules). The pre-repair leaf-only traversal is refuted by a decided counterexample (F-19, fixed). "
+            "Tie: statement shape of check_valid / __call__ regenerated from core.py (C11_gen_check_valid_shape; an optional parameter "
+            "is translated by specialising the body to its default, only if no call site passes it), shape of action_mask / "
+            "action_masks / get_action / schema regenerated (C11_gen_action_mask_shape); rig R-req compares the real check_valid with "
+            "the model on every route, mutation and action request of live trees; the environment-level rig compares, for EVERY "
+            "action-map entry at EVERY step of random episodes (nodes shutting down/booting, services restarting; action maps re-listed "
+            "in shuffled order; a sibling-divergence family whose action map aims every target-taking action type at two files of a "
+            "folder / two folders, services, applications of a host / two ports of a network node and whose history drives the "
+            "siblings apart), the real mask bit with whether the real __call__ reaches a (stubbed) handler, executes entries for real "
+            "against their bit, steps the environment against the mask read before the step (countdown boundaries), checks that "
+            "nothing of the mask survives a reset and that computing the mask is a pure observation.",
     "note": "C11-specific: form_request of each action is exercised on the real classes, not modelled; validator truth values are read "
-            "from the real objects.",
-    "technique": "Lean 4 theorem mask = reaches-handler over the dispatch model; regenerated shape table; differential rig incl. full action maps",
+            "from the real objects; that the step's own pre-processing changes no rule's truth is tested (boundary family), not proved; "
+            "PrimaiteRayEnv wrappers are not driven.",
+    "technique": "Lean 4 theorems (mask = reaches-handler; layout by number; memo soundness iff option-free) over the dispatch model; "
+                 "regenerated shape tables and translated validators; differential rig incl. full and sibling action maps",
     "design_ref": "5/C11",
 }
-MODULES = ["PrimaiteModel.Props.C11"]
+MODULES = ["PrimaiteModel.Props.C11", "PrimaiteModel.Props.C11Memo"]
 EXE = "drv_c05"
 MASK_SCEN = ["data_manipulation", "test_primaite_session", "extended_config"]
 
@@ -150,6 +167,20 @@ def env_level(ctx: Ctx):
                                   f"{name}: mask has {len(mask)} bits for {n_actions} actions / keys {sorted(amap)[:5]}…",
                                   {"scenario": name, "episode": ep, "step": step})
                     break
+                if step % (3 if sib is not None else 6) == 0:
+                    # computing the mask is an observation: asking twice gives the same array and the simulation's described state
+                    # is what it was (a verdict kept from the first computation, or a rule with a side effect, shows here)
+                    before_state = json.dumps(sim.describe_state(), sort_keys=True, default=str)
+                    again = list(env.game.action_mask(env._agent_name)) if env.agent.config.agent_settings.action_masking else list(env.action_masks())
+                    after_state = json.dumps(sim.describe_state(), sort_keys=True, default=str)
+                    ctx.count("mask-purity:checked")
+                    if [int(b) for b in again] != [int(b) for b in mask] or before_state != after_state:
+                        ctx.violation({"kind": "mask-computation-not-pure", "state_changed": before_state != after_state},
+                                      f"{name} ep{ep} step{step}: computing the action mask a second time "
+                                      + ("changed the simulation's described state" if before_state != after_state else
+                                         f"gave a different mask at entries {[i for i in range(len(mask)) if int(mask[i]) != int(again[i])][:6]}"),
+                                      {"mode": "mask-pure", **rp0, "seed": ep_seed, "actions": list(taken), "episode": ep, "step": step,
+                                       "action_index": 0})
                 snap = rig.Snap(sim._request_manager)
                 with rig.Probe(sim, snap, stub=True) as probe:
                     for i, (ident, opts) in amap.items():
@@ -266,7 +297,7 @@ def env_level(ctx: Ctx):
 
 def replay(rec: dict) -> bool:
     rp = rec["replay"]
-    if rp.get("mode") not in ("mask-env", "mask-exec", "mask-step", "mask-reset"):
+    if rp.get("mode") not in ("mask-env", "mask-exec", "mask-step", "mask-reset", "mask-pure"):
         return c05.replay(rec)
     # rebuild the environment with the recorded listing order of every action map, re-seed, re-take the recorded actions, and
     # compare the mask bit of the recorded entry with what __call__ does (stubbed handlers) at that state
@@ -304,6 +335,13 @@ def replay(rec: dict) -> bool:
             env.step(a)
     sim = env.game.simulation
     i = rp["action_index"]
+    if rp["mode"] == "mask-pure":
+        m1 = [int(b) for b in env.action_masks()]
+        s1 = json.dumps(sim.describe_state(), sort_keys=True, default=str)
+        m2 = [int(b) for b in env.game.action_mask(env._agent_name)] if env.agent.config.agent_settings.action_masking else m1
+        s2 = json.dumps(sim.describe_state(), sort_keys=True, default=str)
+        env.close()
+        return m1 == m2 and s1 == s2
     if rp["mode"] == "mask-step":
         v = _stepped_action_check(env, i)
         env.close()
@@ -335,6 +373,7 @@ def run(ctx: Ctx):
     with lean_lock():
         ctx.extract("RequestCore", x_core.emit)
         ctx.extract("ActionMask", x_mask.emit)
+        ctx.extract(x_valid.GEN_NAME, x_valid.emit)   # Props/C11Memo: which translated rules read their options
         ctx.prove(MODULES, exes=[EXE], leanchecker=ctx.thorough)
     ctx.cov["rule"] = ("(a) every route / mutation / action request of live trees at random states: real check_valid vs model checkValid and vs "
                        "real dispatch; (b) every action-map entry at every step of random episodes on scenarios with action masking; "
